@@ -129,6 +129,8 @@ class Models(object):
         return self.overrides.get(fname)
 
     def lookup(self, fname):
+        if fname in self.overrides:
+            return self.overrides[fname]
         if fname in self.cache:
             return self.cache[fname]
         m = self._lookup(fname)
@@ -161,6 +163,8 @@ class Models(object):
             'free': m_delete, 'malloc': m_new, '__cxa_begin_catch': lambda ex, args, inst: NULL,
             '__cxa_end_catch': lambda ex, args, inst: None, '__gxx_personality_v0': None,
             '__cxa_free_exception': lambda ex, args, inst: None,
+            '__cxa_guard_acquire': m_guard_acquire, '__cxa_guard_release': lambda ex, args, inst: None,
+            '__cxa_guard_abort': lambda ex, args, inst: None,
         }
         if base in simple:
             return simple[base]
@@ -266,6 +270,31 @@ def m_throw(ex, args, inst):
     tname = ex.st.regions[tinfo.rid].name if isinstance(tinfo, Ptr) else str(tinfo)
     ex.st.event('throw', tname, v)
     raise Terminal('throw', (tname, v))
+
+
+def m_guard_acquire(ex, args, inst):
+    """function-local static: from an arbitrary process history the static may or may not have been initialised already.
+    Both cases are explored; in the 'already initialised' case the static holds an arbitrary earlier value (a fresh symbol),
+    because it was computed from whatever the state was at the first call."""
+    g = args[0]
+    r = ex.st.regions[g.rid]
+    gname = r.name or ''
+    done = tm.sym('static-initialised:%s' % gname, 'B')
+    if ex.decide(done):
+        var = '_Z' + gname[len('_ZGV'):] if gname.startswith('_ZGV') else None
+        rid = ex.st.gmap.get(var) if var else None
+        if rid is None and var:
+            for nm, rr in ex.st.gmap.items():
+                if nm.endswith(var):
+                    rid = rr
+        if rid is not None:
+            g_ = ex.prog.globals.get(ex.st.regions[rid].name) or {}
+            sz = g_.get('size', 8)
+            ex.st.mem[(rid, 0)] = (10 if sz == 16 else sz, tm.sym('static:%s' % var))
+        ex.st.event('static-local', gname, 'already-initialised')
+        return 0
+    ex.st.event('static-local', gname, 'first-call')
+    return 1
 
 
 def m_new(ex, args, inst):
@@ -773,8 +802,13 @@ def vector_method(elty, name, sig):
         n = args[1]
         if not isinstance(n, int):
             raise ExecError('vector resize symbolic')
+        fillv = dflt
+        if ',' in sig:
+            fillv = ex.load(args[2], es if es != 16 else 10, 'f64' if dflt is tm.ZERO else ('ptr' if dflt is NULL else 'i32'))
+        if ex.st.regions[v.buf].size < n * es:
+            ex.st.mut(v.buf).size = n * es
         for i in range(v.n, n):
-            ex.store(Ptr(v.buf, i * es), es, dflt)
+            ex.store(Ptr(v.buf, i * es), es, fillv)
         v.n = n
         ex.st.mut(v.buf).size = n * es
         ex.st.writes.append((args[0].rid, args[0].off, 8))
